@@ -129,6 +129,37 @@ def reference(items):
     return r
 
 
+def coords_tokens(items):
+    """the program for the extracted QCoords model: S d,.. | Q a,.. q,.. | R n (n + 1 repetitions) ... E"""
+    out = []
+    for it in items:
+        if it[0] == 'op':
+            o = it[1]
+            if 'sc' in o:
+                out.append('S ' + ','.join(str(int(a)) for a in o['sc']))
+            if 'qc' in o:
+                coords, qs = o['qc']
+                out.append('Q %s %s' % (','.join(str(int(a)) for a in coords) if coords else '-', ','.join(map(str, qs))))
+        else:
+            out.append('R %d' % (it[1] - 1))
+            out += coords_tokens(it[2])
+            out.append('E')
+    return out
+
+
+def parse_model_coords(line, part):
+    """'ff: q=c,c q=c | s,s ex: ...' -> (dict q -> list, shift list) of the named part"""
+    seg = line.split(part + ': ', 1)[1]
+    if part == 'ff' and ' ex: ' in seg:
+        seg = seg.split(' ex: ')[0]
+    cs, sh = seg.split('|')
+    qc = {}
+    for tok in cs.split():
+        q, v = tok.split('=')
+        qc[int(q)] = [float(x) for x in v.split(',')] if v else []
+    return qc, [float(x) for x in sh.strip().split(',') if x]
+
+
 def counts_tokens(items, key):
     toks = []
     for it in items:
@@ -156,6 +187,8 @@ def run(rep, tier):
 
     # ---------- A. loop-aware queries vs the unrolled stream
     NA = 600 if quick else 20000
+    coord_in = []
+    coord_meta = []
     for _ in range(NA):
         items, _ = gen_prog(rng, 0, 0)
         text = '\n'.join(render(items))
@@ -204,6 +237,10 @@ def run(rep, tier):
                           'qubit wins, shifted by the coordinate shift in effect)', ref['qc'], qc)
         if ref['det'] <= 500 and dc != ref['dc']:
             rep.violation('Circuit::get_detector_coordinates', 'wrong-result', text, 'differs from the unrolled stream', ref['dc'], dc)
+        toks = coords_tokens(items)
+        if any(t.startswith('Q') for t in toks):
+            coord_in.append('qcoords 16 5 1 ; ' + ' ; '.join(toks))
+            coord_meta.append((text, qc, got.get('shift', []), True))
     rep.sample({'nested_circuit': text})
 
     # ---------- B. astronomically large repeat counts: saturating counts vs the Coq model
@@ -219,6 +256,16 @@ def run(rep, tier):
         if out and out[-1].startswith('ERR'):
             continue
         got = {l.split(' ')[0]: l.split(' ', 1)[1] for l in out}
+        toks = coords_tokens(items)
+        if any(t.startswith('Q') for t in toks):
+            qcb = {}
+            for l in out:
+                t = l.split(' ', 1)
+                if t[0] == 'qcoord':
+                    q, c = t[1].split(' ', 1)
+                    qcb[int(q)] = parse_coords(c)
+            coord_in.append('qcoords 16 5 0 ; ' + ' ; '.join(toks))
+            coord_meta.append((text, qcb, parse_coords(got.get('final_coord_shift', '')), False))
         for key, name in (('meas', 'count_measurements'), ('det', 'count_detectors'), ('tick', 'count_ticks')):
             model_in.append('counts ' + ' '.join(counts_tokens(items, key)))
             meta.append((text, name, got.get(name)))
@@ -231,6 +278,27 @@ def run(rep, tier):
         if got != sat:
             rep.violation('Circuit::' + name, 'wrong-result', text,
                           'count for huge repeat counts differs from min(unrolled count, 2^64-1)', sat, got)
+
+    # ---------- B'. final qubit coordinates and shift vs the extracted fast-forward model (QCoords.ffl), any repeat count
+    co = core.run_svm('\n'.join(coord_in) + '\n', timeout=1200) if coord_in else []
+    for (text, qc, shift, small), line in zip(coord_meta, co):
+        if not line.startswith('ff: '):
+            rep.broken_obligation('QCoords-model-run', {'circuit': text, 'model': line})
+            continue
+        mq, ms = parse_model_coords(line, 'ff')
+        if small:
+            eq, es = parse_model_coords(line, 'ex')
+            if (mq, ms) != (eq, es):
+                rep.broken_obligation('QCoords.ffl-vs-execl', {'circuit': text, 'model': line})
+        big = max([abs(x) for v in mq.values() for x in v] + [abs(x) for x in ms] + [0])
+        rep.count(('c15-q', text), nontrivial=not small or 'REPEAT' in text)
+        if big >= 2 ** 52:
+            continue          # beyond exact double arithmetic: not comparable
+        if {q: v for q, v in qc.items() if q < 16} != mq:
+            rep.violation('Circuit::get_final_qubit_coords', 'wrong-result', text,
+                          'differs from the fast-forward model proved equal to the unrolled program (QCoords.ffc_is_unrolled)', mq, qc)
+        if trim(shift) != trim(ms):
+            rep.violation('Circuit::final_coord_shift', 'wrong-result', text, 'differs from the model', ms, shift)
 
     # ---------- C. DEM loop-aware queries
     dem_queries(rep, svh, rng, 300 if quick else 8000)
